@@ -78,6 +78,10 @@ def model(case):
             if not case["exiting"]:
                 # fn "e": the generator's own stack is extracted with an error on it (an inner manager cannot be described)
                 s["inner"] = "gen%d" % cur + ("+error" if L["fn"] == "e" else "")
+            elif L["fn"] == "e":
+                # exiting: the glue looks for the generator's frame with a helper extraction; what goes wrong in there (the
+                # inner manager cannot be described) is reported by fill_context() as well
+                s["discarded_error"] = True
             s["desc"] = "GLUE"
             if L["fn"] in ("a", "c", "d", "e"):
                 log.append(["ucg", cur, True])
